@@ -19,6 +19,7 @@ from markupsafe import Markup
 from liquid2.builtin import Null
 from liquid2.exceptions import LiquidTypeError
 from liquid2.filter import decimal_arg
+from liquid2.filter import sequence_arg
 from liquid2.filter import sequence_filter
 from liquid2.filter import with_environment
 from liquid2.limits import to_int
@@ -139,10 +140,14 @@ def map_(sequence: Sequence[object], key: object) -> list[object]:
         raise LiquidTypeError("can't map sequence", token=None) from err
 
 
-@sequence_filter
-def reverse(array: Sequence[object]) -> list[object]:
-    """Reverses the order of the items in an array."""
-    return list(reversed(array))
+def reverse(array: object) -> object:
+    """Reverses the order of the items in an array.
+
+    If the input is a string, it is returned unchanged.
+    """
+    if isinstance(array, str):
+        return array
+    return list(reversed(sequence_arg(array)))
 
 
 @sequence_filter
